@@ -3,7 +3,7 @@
    Compiled by setup.sh / the check driver from directory ocaml/gen. *)
 Require Extraction.
 Require ExtrOcamlBasic.
-From WR Require Import Lib.Bits Lib.Codec Mpq.Crypt Mpq.Jenkins Mpq.Sparse Mpq.CompressWrap Mpq.Path Mpq.Chain Mpq.Patch Mpq.Parallel Mpq.Archive Mpq.Rebuild Mpq.MpqRef Mpq.Modify Mpq.Integrity Mpq.Security Lib.Md5 Lib.Fs Ffi.Handles Cli.Outcome Fmt.Dbc Fmt.Blp Fmt.Chunked Fmt.Wdt Fmt.Wdl.
+From WR Require Import Lib.Bits Lib.Codec Mpq.Crypt Mpq.Jenkins Mpq.Sparse Mpq.CompressWrap Mpq.Path Mpq.Chain Mpq.Patch Mpq.Parallel Mpq.Archive Mpq.Rebuild Mpq.MpqRef Mpq.Modify Mpq.Integrity Mpq.Security Lib.Md5 Lib.Fs Ffi.Handles Cli.Outcome Fmt.Dbc Fmt.Blp Fmt.Chunked Fmt.M2 Fmt.Wdt Fmt.Wdl.
 Extraction Language OCaml.
 Extraction "model.ml"
   Crypt.crypt_table Crypt.hash_string Crypt.ref_hash Crypt.encrypt_block Crypt.decrypt_block
@@ -22,6 +22,7 @@ Extraction "model.ml"
   Rebuild.rebuild_specs Rebuild.rebuild_cfg
   MpqRef.ref_open MpqRef.ref_read MpqRef.ref_write MpqRef.ref_find
   Modify.spec_run Modify.sget Modify.fold_name Modify.mt_add Modify.mt_find Modify.mt_remove
+  M2.refs_ok M2.deref M2.relocate
   Chunked.table_ok Chunked.chunk_at Chunked.chunk_offsets Chunked.name_offsets Chunked.name_at
   Security.validate_header Security.array_ok
   Blp.mip_count Blp.mip_size Blp.quant Blp.expand Blp.alpha_plane Blp.layout_offsets
